@@ -148,14 +148,77 @@ def run(project, chk):
                                   f"{callee.name} composites over a value derived from the `{bgparam}` parameter (white / None only as the no-background default)",
                                   how=f"origin of its background argument: {oshow(o)[:140]}",
                                   message=f"{callee.name} is given {oshow(o)[:140]} as background: the supplied background does not reach it (or something else does)")
+        # path-sensitive: on paths where a background WAS supplied the compositor must not receive the default,
+        # and the default (None / white) may only flow in on paths where `background is None`
+        from sa.dataflow import solve as _solve
+        from sa.guards import node_stores as _stores
+        argvars = set()
+        sites = []
+        for node in cfg.nodes:
+            for e in node_exprs(node):
+                for c in ast.walk(e):
+                    if isinstance(c, ast.Call) and sc2.resolve_call(c) in targets:
+                        callee = project.func(sc2.resolve_call(c))
+                        a = bind_args(callee, c).get(targets[sc2.resolve_call(c)])
+                        if isinstance(a, ast.Name):
+                            argvars.add(a.id)
+                            sites.append((node, c, a.id, callee))
+
+        def _tr(node, state):
+            st = _stores(node)
+            if not st:
+                return state
+            pols = {p for (_, _, p) in state} or {None}
+            a = node.ast
+            kept = {x for x in state if x[0] not in st}
+            if node.kind == "stmt" and isinstance(a, ast.Assign) and len(a.targets) == 1 and isinstance(a.targets[0], ast.Name) and isinstance(a.value, ast.Name):
+                # a copy: x = y carries y's defining statements (per path) over to x
+                src = {(a.targets[0].id, d, p) for (v, d, p) in state if v == a.value.id}
+                if src:
+                    return frozenset(kept | src)
+            return frozenset(kept | {(v, node.id, pol) for v in st for pol in pols})
+
+        def _edge(node, label, state):
+            if label == "exc":
+                return None
+            if node.kind == "cond" and label in ("T", "F"):
+                t = norm_text(node.ast)
+                pol = None
+                if t == f"{bgparam} is None":
+                    pol = "none" if label == "T" else "given"
+                elif t == f"{bgparam} is not None":
+                    pol = "given" if label == "T" else "none"
+                if pol is not None:
+                    return frozenset((v, d, pol) for (v, d, _p) in state) or frozenset({("$", -1, pol)})
+            return state
+
+        IN3, _ = _solve(cfg, frozenset({("$", -1, None)}), _tr, _edge, lambda n, inc: frozenset().union(*[s3 for _, _, s3 in inc]))
+        white = ("tuple", (("const", 255), ("const", 255), ("const", 255)))
+        for node, c, var, callee in sites:
+            bad = []
+            for (v, d, pol) in IN3.get(node.id, ()):
+                if v != var or d < 0:
+                    continue
+                dn = cfg.nodes[d]
+                val = org.of(d, dn.ast.value) if dn.kind == "stmt" and isinstance(dn.ast, ast.Assign) else ("expr", "?")
+                is_default = val == ("const", None) or val == white
+                if pol == "given" and is_default:
+                    bad.append(f"the default {oshow(val)} (line {dn.lineno}) reaches the call on a path where a background was supplied")
+                if pol != "none" and is_default and pol != "given":
+                    bad.append(f"the default {oshow(val)} (line {dn.lineno}) reaches the call without a `{bgparam} is None` test")
+                if pol == "none" and not is_default and not rooted_at(val, bgparam):
+                    bad.append(f"{oshow(val)[:60]} is used when no background was supplied")
+            chk.check(not bad, "W3", fi.short, norm_text(c), project.loc(fi.module, c), f"{callee.name}: on every path where a background was supplied it is that background which is composited over",
+                      how="definitions of the background argument tracked together with the outcome of the `background is None` test", message="; ".join(sorted(set(bad)))[:300])
         # the white / None defaults are assigned only where the background is known to be None
         for node in cfg.nodes:
             a = node.ast
-            if node.kind == "stmt" and isinstance(a, ast.Assign) and isinstance(a.value, ast.Tuple) and [getattr(x, "value", None) for x in a.value.elts] == [255, 255, 255]:
+            if node.kind == "stmt" and isinstance(a, ast.Assign) and isinstance(a.value, ast.Tuple) and len(a.value.elts) == 3 and all(isinstance(x, ast.Constant) and isinstance(x.value, int) for x in a.value.elts):
+                vals = [x.value for x in a.value.elts]
                 lits = common_literals(G.get(node.id))
                 ok = (f"{bgparam} is None", True) in lits or (f"{bgparam} is not None", False) in lits
-                chk.check(ok, "W3", fi.short, norm_text(a), project.loc(fi.module, a), "white is used only when no background was supplied", how=f"guards: {sorted(t for t, v in lits if v)[:4]}",
-                          message="white is used as compositing background even when a background was supplied")
+                chk.check(ok and vals == [255, 255, 255], "W3", fi.short, norm_text(a), project.loc(fi.module, a), "the constant compositing background is white and is used only when no background was supplied", how=f"value {vals}; guards: {sorted(t for t, v in lits if v)[:4]}",
+                          message=f"constant compositing background {tuple(vals)} {'is not white' if vals != [255, 255, 255] else 'is used even when a background was supplied'}")
     chk.floor("compositing call sites in parse_color_to_rgb", n_sites, 4)
     # hsla_to_rgb's own default
     fi = project.func(f"{CONV}.hsla_to_rgb")
@@ -166,12 +229,13 @@ def run(project, chk):
     n_w = 0
     for node in cfg.nodes:
         a = node.ast
-        if node.kind == "stmt" and isinstance(a, ast.Assign) and isinstance(a.value, ast.Tuple) and [getattr(x, "value", None) for x in a.value.elts] == [255, 255, 255]:
+        if node.kind == "stmt" and isinstance(a, ast.Assign) and isinstance(a.value, ast.Tuple) and len(a.value.elts) == 3 and all(isinstance(x, ast.Constant) and isinstance(x.value, int) for x in a.value.elts):
             n_w += 1
+            vals = [x.value for x in a.value.elts]
             lits = common_literals(G.get(node.id))
             ok = ("background is None", True) in lits
-            chk.check(ok, "W3", fi.short, norm_text(a), project.loc(fi.module, a), "hsla_to_rgb falls back to white only when background is None", how=f"guards: {sorted(t for t, v in lits if v)[:4]}",
-                      message="hsla_to_rgb composites over white even when a background was supplied")
+            chk.check(ok and vals == [255, 255, 255], "W3", fi.short, norm_text(a), project.loc(fi.module, a), "hsla_to_rgb falls back to white, and only when background is None", how=f"value {vals}; guards: {sorted(t for t, v in lits if v)[:4]}",
+                      message=f"hsla_to_rgb's constant background {tuple(vals)} {'is not white' if vals != [255, 255, 255] else 'is used even when a background was supplied'}")
     chk.floor("white default in hsla_to_rgb", n_w, 1)
 
     # ---------------------------------------------------------------- W4 formulas
